@@ -203,6 +203,8 @@ def c07(r):
 def c06(r):
     r.assumptions += ['64-bit boundary constants are symbolic in the ideal layer (BigC): sound where the program does not overflow',
                       'value of the control variable after a for loop = last value visited (observed, manual silent)']
+    r.mc('BlocForLoop', 'MC_C06.cfg', 'iteration test of FOR on 5-bit two\'s-complement integers = the ideal test on mathematical integers, and the stored next '
+         'value never wraps, for all values of the control variable, both bounds and every step (506 880 cases)')
     depth = 2 if r.quick else 3
     scs = r.gen('Gen_C06', 'Gen_C06.cfg', env={'GEN_DEPTH': str(depth)}, timeout=3000)
     r.exhaustive = True
@@ -237,6 +239,8 @@ def c05(r):
 def c09(r):
     r.assumptions += ['unpinned cases (accepted with conversion or rejected; listed in Bloc.tla Unpinned/UnpinnedConcat) only have to keep tables uniform',
                       'a static type/rank error may be reported at compile time or at run time']
+    r.mc('BlocTupleType', 'MC_C09.cfg', 'tuple type identity: with structural identity a table accepts exactly the tuples of its declaration (all pairs of declarations of <= 4 items '
+         'over 6 item types); MC_C09_dev.cfg (identity = the implementation\'s 16-bit hash) has a counterexample = known finding D21')
     h = 2
     scs = r.gen('Gen_C09', 'Gen_C09.cfg', env={'GEN_DEPTH': str(h)}, timeout=3000)
     r.exhaustive = True
@@ -347,6 +351,8 @@ def c17(r):
 def c12(r):
     r.assumptions += ['the unparse functions (Executable::unparse) produce the text; the interactive save command writes the same text (covered by C19 scenarios)',
                       'relations are non-associative in the grammar (chaining is a syntax error): generated texts parenthesise them']
+    r.mc('BlocGrammar', 'MC_C12.cfg', 'grammar levels and associativity as a recursive-descent parser + minimal-parentheses unparser: Parse(Unparse(e)) = e and every '
+         'parenthesis is needed, for all 24 426 trees of depth <= 2 over one operator per level, 2 unary operators, 2 leaves')
     scs = r.gen('Gen_C12', 'Gen_C12.cfg', timeout=3000)
     r.exhaustive = True
     r.extra['bounds'] = 'all ordered operator pairs (parent, child, side) of 6 arithmetic, 6 relational, 3 logical operators + unary shapes with minimal parentheses; 150 statement-level programs; 55 literal/statement forms (relation only)'
